@@ -58,7 +58,10 @@ class TimestampType(IntType, prim='timestamp'):  # type: ignore
         if mode in ['optimized', 'legacy_optimized']:
             return {'int': str(self.value)}
         elif mode == 'readable':
-            return {'string': format_timestamp(self.value)}
+            # RFC 3339 text only covers four-digit years; like Tezos, render anything else as an integer
+            if -30610224000 <= self.value <= 253402300799:  # 1000-01-01T00:00:00Z .. 9999-12-31T23:59:59Z
+                return {'string': format_timestamp(self.value)}
+            return {'int': str(self.value)}
         else:
             raise AssertionError(f'unsupported mode {mode}')
 
